@@ -364,7 +364,9 @@ def _run_check(prop, tier, spec, wd, t0):
             leg.setdefault("env", {})
             leg["env"] = dict(leg["env"], VERIF_VWORKER=vw)
         if kind == "rapid":
+            t_leg = time.time()
             results += run_rapid_leg(prop, i, leg, wd, built[key])
+            log("  leg %d %s: %.1fs" % (i, leg["test"], time.time() - t_leg))
         elif kind == "fuzz":
             import fuzzleg
             r, inc = fuzzleg.run(prop, i, leg, wd, built[key])
